@@ -78,7 +78,7 @@ type scaleCase struct {
 
 func recC18() *vkit.Recorder {
 	r := vkit.Rec("C18", "exploration", "unit TestC18Coord: real coordinator for 1-4 cycles on the real kubernetes ReplicasManager, 1-3 StatefulSets whose state per cycle is settled / rolling update / not ready, every shard request and StatefulSet/PVC write attributed to a cycle (non-trivial there = a rolling update that starts after a coordinated cycle); pod lists also in lexicographic name order; client-go fake clientset driven through the public NewReplicasManager(...).Replicas(): (1) EXHAUSTIVE grid old in 0..6(10) x new in 0..6(10) x claim templates in 0..2 x delete flag, each with claims of another StatefulSet and of ordinals beyond 'old' present; oracle on the objects left in the clientset and the recorded actions; the same grid with the StatefulSet update rejected by the API server (no claim may go); rapid sequences of scale requests on ONE manager interleaved with outside scale changes; (2) rapid over pod list permutations (up to 101 pods) x readiness patterns x several StatefulSets incl. one mid rolling update; oracle on the Shard list; non-trivial = old != new with >=1 template, or a non-identity pod permutation; distinct = digest of the case")
-	r.Assume("a pod has an IP exactly when it is ready (both readings of 'readiness' agree); pods set-0..set-(k-1) exist as a prefix of the ordinals (OrderedReady pod management)")
+	r.Assume("a pod has an IP exactly when it is ready (both readings of 'readiness' agree); where an ordinal has no pod (a hole: pod deleted and not yet back) only 'not ready and not another pod' is demanded of that position")
 	return r
 }
 
@@ -302,8 +302,10 @@ func runList(c *listCase) []vkit.Violation {
 		p.Status.Conditions = []corev1.PodCondition{{Type: corev1.PodReady, Status: st}}
 		return p
 	}
+	lastSel := ""
 	cli.PrependReactor("list", "pods", func(a k8stesting.Action) (bool, runtime.Object, error) {
 		sel := a.(k8stesting.ListAction).GetListRestrictions().Labels.String()
+		lastSel = sel
 		l := &corev1.PodList{}
 		if sel == "sts=set" {
 			for _, p := range c.Pods {
@@ -342,24 +344,37 @@ func runList(c *listCase) []vkit.Violation {
 			add("C18/shards-error", "%v", err)
 			continue
 		}
-		if len(shards) == 0 || !strings.HasPrefix(shards[0].ID, "set-") {
-			if len(shards) > 0 && c.Rolling && strings.HasPrefix(shards[0].ID, "zrep0-") {
+		if lastSel != "sts=set" {
+			if c.Rolling && lastSel == "sts=zrep0" {
 				add("C18/rolling-update-coordinated", "StatefulSet zrep0 is mid rolling update but was returned")
 			}
-			if len(c.Pods) > 0 || len(shards) > 0 {
-				continue
-			}
+			continue
 		}
 		found = true
-		if len(shards) != len(c.Pods) {
+		byOrd := map[int]string{}
+		holes := false
+		for _, p := range c.Pods {
+			byOrd[p.Ordinal] = p.IP
+			holes = holes || p.Ordinal >= len(c.Pods)
+		}
+		if len(shards) != len(c.Pods) && !holes {
 			add("C18/shard-count", "%d shards for %d pods", len(shards), len(c.Pods))
 			continue
 		}
-		byOrd := map[int]string{}
-		for _, p := range c.Pods {
-			byOrd[p.Ordinal] = p.IP
-		}
 		for i, s := range shards {
+			if _, exists := byOrd[i]; !exists {
+				// a hole in the ordinals (pod deleted and not yet recreated, parallel pod management): whatever stands
+				// at that position, it is not a ready shard and it is not another pod
+				if s.Ready {
+					add("C18/shard-readiness", "pod set-%d does not exist, but shard %d is ready (id %q; pods returned as %v)", i, i, s.ID, c.Pods)
+					break
+				}
+				if s.ID != "" && s.ID != fmt.Sprintf("set-%d", i) {
+					add("C18/shard-order", "pod set-%d does not exist, but shard %d has ID %q (pods returned as %v)", i, i, s.ID, c.Pods)
+					break
+				}
+				continue
+			}
 			if s.ID != fmt.Sprintf("set-%d", i) {
 				add("C18/shard-order", "shard %d has ID %q, want set-%d (pods returned as %v)", i, s.ID, i, c.Pods)
 				break
@@ -409,10 +424,18 @@ func TestC18List(t *testing.T) {
 			orderKind = "by-ordinal"
 			sort.Ints(perm)
 		}
+		gapAt, gapWidth := -1, 0
+		if k > 0 && rapid.IntRange(0, 3).Draw(t, "hole") == 0 {
+			// a hole in the ordinals: a pod that was deleted and is not back yet
+			gapAt, gapWidth = rapid.IntRange(0, k-1).Draw(t, "holeAt"), rapid.IntRange(1, 2).Draw(t, "holeWidth")
+		}
 		identity := true
 		for i, o := range perm {
 			if i != o {
 				identity = false
+			}
+			if gapAt >= 0 && o >= gapAt {
+				o += gapWidth
 			}
 			ip := fmt.Sprintf("10.0.0.%d", 10+o)
 			if rapid.IntRange(0, 3).Draw(t, fmt.Sprintf("unready%d", i)) == 0 {
@@ -433,7 +456,10 @@ func TestC18List(t *testing.T) {
 		if c.Rolling && c.Others > 0 {
 			cls = append(cls, "rolling-update-present")
 		}
-		rec.Eval(!identity, vkit.Digest(string(b)), cls...)
+		if gapAt >= 0 {
+			cls = append(cls, "list/hole-in-the-ordinals")
+		}
+		rec.Eval(!identity || gapAt >= 0, vkit.Digest(string(b)), cls...)
 		if !identity && rec.WantSample() {
 			rec.Sample(c)
 		}
